@@ -1,5 +1,7 @@
 import RoaringModel.Lemmas.BitmapLen
 import RoaringModel.Props.C02
+import RoaringModel.Lemmas.Mirror32
+import RoaringModel.Lemmas.MirrorLemmas
 /-!
 # C08 — relations and cardinality-only operations match the real sets
 
@@ -145,5 +147,48 @@ example : exA.WF ∧ exB.WF := by
 
 example : isSubset exB exA = false ∧ isDisjoint exA exB = false ∧ interLen exA exB = 1
     ∧ unionLen exA exB = 4165 ∧ diffLen exA exB = some 4162 ∧ xorLen exA exB = 4164 := by decide +kernel
+
+/-! ## Fidelity audit (stores): `ArrayStore::intersection_len` through the counting visitor
+
+`notes/fidelity-stores-iter32.md`.  The array∘array kernel under `C08_intersection_len` is `Arr.interLen`, a monomorphic
+copy of the `and` merge that counts.  The Rust (array_store/mod.rs:215-222) runs the *same generic* `scalar::and` as
+`&a & &b`, with the `CardinalityCounter` visitor; `Arr.interLenVisit` is that (`Arr.scalarAnd Arr.cardCounter`).  The
+compiled driver executes it wherever the model calls `Arr.interLen` (`@[csimp]`, unconditional). -/
+
+/-- what the compiled driver runs in place of `Arr.interLen` -/
+theorem C08_driver_runs_interLen_visitor : @Arr.interLen = @Arr.interLenVisit := Arr.interLen_eq_visit
+
+/-- the generic merge with the counting visitor, from any count `n`: adds exactly the model's `interLen`; and the
+    counting visitor counts what the writing visitor writes — both for arbitrary (also ill-formed) slices -/
+theorem C08_interLen_visitor (l r : List Nat) (n : Nat) :
+    Arr.scalarAnd Arr.cardCounter l r n = n + Arr.interLen l r
+    ∧ Arr.interLenVisit l r = (Arr.andVisit l r).length :=
+  ⟨Arr.scalarAnd_cardCounter l r n, Arr.interLenVisit_eq_length l r⟩
+
+/-- on strictly ascending operands (array chunks of `Bitmap.WF` values) it is the cardinality of the intersection -/
+theorem C08_interLen_visitor_exact (l r : List Nat) (hl : Sorted l) (hr : Sorted r) :
+    ∃ v, Sorted v ∧ (∀ x, x ∈ v ↔ x ∈ l ∧ x ∈ r) ∧ Arr.interLenVisit l r = v.length :=
+  ⟨Arr.and l r, Arr.sorted_and l r hl hr, Arr.mem_and l r hl hr, by rw [Arr.interLenVisit_eq, Arr.interLen_eq]⟩
+
+example : Sorted [1, 5, 65535] ∧ Sorted [5, 6, 65535] := by simp [Sorted]
+example : Arr.interLenVisit [1, 5, 65535] [5, 6, 65535] = 2 := by decide +kernel
+/-! ### The relations as the driver executes them (`Mirror32.lean`): `is_subset` is the `for` loop over `Pairs`
+    with its two early `return false` (cmp.rs:58-69), `is_disjoint` is `filter_map(zip)` followed by `all`
+    (cmp.rs:30-32).  Both are unconditionally equal to the definitions above (`isSubset_mirror_eq`,
+    `isDisjoint_mirror_eq`). -/
+theorem C08_is_subset_mirror (a b : Bitmap) (ha : a.WF) (hb : b.WF) :
+    isSubsetMirror a b = Spec.isSubset (elems a) (elems b) ∧
+    (isSubsetMirror a b = true ↔ ∀ y, y ∈ elems a → y ∈ elems b) := by
+  rw [isSubset_mirror_eq]; exact C08_is_subset a b ha hb
+theorem C08_is_superset_mirror (a b : Bitmap) (ha : a.WF) (hb : b.WF) :
+    isSupersetMirror a b = Spec.isSuperset (elems a) (elems b) ∧
+    (isSupersetMirror a b = true ↔ ∀ y, y ∈ elems b → y ∈ elems a) := by
+  rw [isSuperset_mirror_eq]; exact C08_is_superset a b ha hb
+theorem C08_is_disjoint_mirror (a b : Bitmap) (ha : a.WF) (hb : b.WF) :
+    isDisjointMirror a b = Spec.isDisjoint (elems a) (elems b) ∧
+    (isDisjointMirror a b = true ↔ ∀ y, y ∈ elems a → ¬ y ∈ elems b) := by
+  rw [isDisjoint_mirror_eq]; exact C08_is_disjoint a b ha hb
+example : isSubsetMirror exB exA = false ∧ isDisjointMirror exA exB = false ∧ isSubsetMirror [] exA = true := by
+  decide +kernel
 
 end Roaring.C08
